@@ -41,6 +41,12 @@ def dispatch(pid, tier, replay):
     if pid == "C14":
         import fill_checks
         return fill_checks.c14(tier)
+    if pid == "C11":
+        import input_checks
+        return input_checks.c11(tier)
+    if pid == "C12":
+        import field_checks
+        return field_checks.c12(tier)
     raise common.MachineryError("no check for " + pid)
 
 
